@@ -1,4 +1,7 @@
 import RbV.Lemmas.C14
+import RbV.Thm.GenSrcHmmViterbi
+import RbV.Thm.GenSrcHmmForward
+import RbV.Thm.GenSrcHmmBackward
 /-!
 # C14 — HMM decoding and likelihoods equal their definitions over all state paths
 
@@ -170,6 +173,78 @@ theorem impossible_zero (m : Hmm) (obs : List Nat) (hS : 0 < m.S) (hwf : m.WF) (
   rw [forward_sum m obs h, hl] at this
   omega
 
+/-! ### the source text of `src/stats/hmm/mod.rs` (translated on every run: `RbV/Gen/SrcHmm*.lean`)
+
+`LogProb` is an abstract type in the translation (`Rs.LogOps P`: `ln_zero`, `ln_one`, `+` on logs, `ln_sum_exp`, `ln_add_exp`,
+`is_zero`, comparison), the accessors of `trait Model` are abstract parameters (`Rs.HmmOps P O`), `Array2` is a list of rows.
+The theorems instantiate `P` with exact numerators (`Rs.natOps z`: product, sum, `compare`; `z` = the irrelevant fill value of
+`Array2::zeros`) and the accessors with a specification-level model (`Rs.hmmOps m`).  `Res.ok` = no panic (no index out of
+bounds, no `usize` overflow, no `unwrap` of `None`).  What stays untied is exactly the `f64` arithmetic behind the `LogProb`
+operations (C15). -/
+
+/-- **`hmm::forward` as written = the mirror model**: table of forward columns and the likelihood `forward m obs` -/
+theorem forward_source_eq_model (z : Nat) (m : Hmm) (obs : List Nat) (h : obs ≠ []) :
+    RbV.Gen.SrcHmmForward.forward (RbV.Rs.natOps z) (RbV.Rs.hmmOps m) obs
+      = RbV.Rs.Res.ok ((List.range obs.length).map (RbV.Thm.GenSrcHmmForward.fcol m obs), forward m obs) :=
+  RbV.Thm.GenSrcHmmForward.forward_eq_model z m obs h
+
+/-- … hence the translated `forward` returns the sum of the joint weight over all state paths -/
+theorem forward_source_is_sum_over_paths (z : Nat) (m : Hmm) (obs : List Nat) (h : obs ≠ []) :
+    ∃ tbl, RbV.Gen.SrcHmmForward.forward (RbV.Rs.natOps z) (RbV.Rs.hmmOps m) obs
+      = RbV.Rs.Res.ok (tbl, ((paths m.S obs.length).map (joint m obs)).sum) :=
+  ⟨_, by rw [forward_source_eq_model z m obs h, forward_sum m obs h]; rfl⟩
+
+/-- **`hmm::backward` as written = the mirror model**: table of backward rows and the likelihood `backward m obs`
+(`obs.length < 2^64` as for every slice: the loop computes `i + 1` in `usize`) -/
+theorem backward_source_eq_model (z : Nat) (m : Hmm) (obs : List Nat) (h : obs ≠ []) (h64 : obs.length < 2 ^ 64) :
+    RbV.Gen.SrcHmmBackward.backward (RbV.Rs.natOps z) (RbV.Rs.hmmOps m) obs
+      = RbV.Rs.Res.ok ((List.range obs.length).map (RbV.Thm.GenSrcHmmBackward.brow m obs), backward m obs) :=
+  RbV.Thm.GenSrcHmmBackward.backward_eq_model z m obs h h64
+
+/-- … hence the translated `backward` returns the sum of the joint weight over all state paths -/
+theorem backward_source_is_sum_over_paths (z : Nat) (m : Hmm) (obs : List Nat) (h : obs ≠ []) (h64 : obs.length < 2 ^ 64) :
+    ∃ tbl, RbV.Gen.SrcHmmBackward.backward (RbV.Rs.natOps z) (RbV.Rs.hmmOps m) obs
+      = RbV.Rs.Res.ok (tbl, ((paths m.S obs.length).map (joint m obs)).sum) :=
+  ⟨_, by rw [backward_source_eq_model z m obs h h64, backward_sum m obs h]; rfl⟩
+
+/-- the translated `forward` and `backward` return the same likelihood -/
+theorem forward_source_eq_backward_source (z : Nat) (m : Hmm) (obs : List Nat) (h : obs ≠ []) (h64 : obs.length < 2 ^ 64) :
+    ∃ t1 t2 v, RbV.Gen.SrcHmmForward.forward (RbV.Rs.natOps z) (RbV.Rs.hmmOps m) obs = RbV.Rs.Res.ok (t1, v) ∧
+      RbV.Gen.SrcHmmBackward.backward (RbV.Rs.natOps z) (RbV.Rs.hmmOps m) obs = RbV.Rs.Res.ok (t2, v) :=
+  ⟨_, _, _, forward_source_eq_model z m obs h, by rw [backward_source_eq_model z m obs h h64, forward_eq_backward m obs h]⟩
+
+/-- **`hmm::viterbi` as written = the mirror model, modulo tie-breaking** (the property does not fix which of several optimal
+paths is returned): the translated `viterbi_matrices` + end-term loop + `viterbi_traceback` return, without panic, the value
+the mirror model `viterbi m obs` reports and a state path whose joint weight is that value -/
+theorem viterbi_source_eq_model (z : Nat) (m : Hmm) (obs : List Nat) (hS : 0 < m.S) (hwf : m.WF) (h : obs ≠ []) :
+    ∃ π, RbV.Gen.SrcHmmViterbi.viterbi (RbV.Rs.natOps z) (RbV.Rs.hmmOps m) obs = RbV.Rs.Res.ok (π, (viterbi m obs).2) ∧
+      π ∈ paths m.S obs.length ∧ joint m obs π = (viterbi m obs).2 :=
+  RbV.Thm.GenSrcHmmViterbi.viterbi_eq_model z m hS hwf obs h
+
+/-- … hence the translated `viterbi` returns a path that attains the maximum of the joint weight over all state paths, and
+that maximum -/
+theorem viterbi_source_is_max_over_paths (z : Nat) (m : Hmm) (obs : List Nat) (hS : 0 < m.S) (hwf : m.WF) (h : obs ≠ []) :
+    ∃ π v, RbV.Gen.SrcHmmViterbi.viterbi (RbV.Rs.natOps z) (RbV.Rs.hmmOps m) obs = RbV.Rs.Res.ok (π, v) ∧
+      π ∈ paths m.S obs.length ∧ joint m obs π = v ∧ (∀ ρ ∈ paths m.S obs.length, joint m obs ρ ≤ v) ∧
+      v = viterbiVal m obs := by
+  obtain ⟨π, v, hv, hp, hj, hub⟩ := RbV.Thm.GenSrcHmmViterbi.viterbi_optimal z m hS hwf obs h
+  refine ⟨π, v, hv, hp, hj, hub, ?_⟩
+  apply Nat.le_antisymm
+  · rw [← hj]; exact le_maxL_of_mem (List.mem_map.mpr ⟨_, hp, rfl⟩)
+  · apply maxL_le
+    intro a ha
+    obtain ⟨ρ, hρ, rfl⟩ := List.mem_map.mp ha
+    exact hub ρ hρ
+
+/-- the zero-aware comparator closure of `viterbi_matrices`, as written, refines the score `previous value · transition`
+(what makes `max_by` return a maximising predecessor in any scan order) -/
+theorem viterbi_comparator_source_refines_score (z : Nat) (m : Hmm) (i c : Nat) (x y : Nat × Nat) :
+    (RbV.Gen.SrcHmmViterbi.viterbi_matrices_cmp1 (RbV.Rs.natOps z) (RbV.Rs.hmmOps m) i c x y = .gt →
+        y.2 * m.trans y.1 c ≤ x.2 * m.trans x.1 c) ∧
+    (RbV.Gen.SrcHmmViterbi.viterbi_matrices_cmp1 (RbV.Rs.natOps z) (RbV.Rs.hmmOps m) i c x y ≠ .gt →
+        x.2 * m.trans x.1 c ≤ y.2 * m.trans y.1 c) :=
+  RbV.Thm.GenSrcHmmViterbi.cmp1_spec z m i c x y
+
 /-! ### non-vacuity -/
 
 /-- a 2-state model over denominator 10 with zeros, a tie and an end vector -/
@@ -241,5 +316,22 @@ the raw `discrete_emission_opt_end::Model::new(…, end, false)`) is decoded wit
 def undeclared : Hmm := { oneState with fin := fun _ => 3, hasEnd := false }
 example : ¬ undeclared.WF ∧ (viterbi undeclared [0, 0]).2 = 10 ^ 4 ∧ joint undeclared [0, 0] [0, 0] = 3 * 10 ^ 4 := by
   refine ⟨fun h => absurd (h rfl 0 (by decide)) (by decide), by decide, by decide⟩
+
+/-- the translated functions run on the example models (values as the mirror models above; `7` = fill value) -/
+example : RbV.Gen.SrcHmmForward.forward (RbV.Rs.natOps 7) (RbV.Rs.hmmOps exModel) [1, 0, 0]
+    = RbV.Rs.Res.ok ([[40, 10], [400, 2400], [4000, 208000]], 628000) := by decide
+example : RbV.Gen.SrcHmmBackward.backward (RbV.Rs.natOps 7) (RbV.Rs.hmmOps exModel) [1, 0, 0]
+    = RbV.Rs.Res.ok ([[1, 3], [130, 240], [10900, 19200]], 628000) := by decide
+example : RbV.Gen.SrcHmmBackward.backward (RbV.Rs.natOps 0) (RbV.Rs.hmmOps exModel) [1]
+    = RbV.Rs.Res.ok ([[1, 3]], 70) := by decide
+example : RbV.Gen.SrcHmmViterbi.viterbi (RbV.Rs.natOps 0) (RbV.Rs.hmmOps exModel) [1, 0, 0]
+    = RbV.Rs.Res.ok ([0, 1, 1], 384000) := by decide
+example : RbV.Gen.SrcHmmViterbi.viterbi (RbV.Rs.natOps 0) (RbV.Rs.hmmOps flipModel) [0, 0] = RbV.Rs.Res.ok ([0, 1], 5400) ∧
+    RbV.Gen.SrcHmmViterbi.viterbi (RbV.Rs.natOps 0) (RbV.Rs.hmmOps flipModel.noEnd) [0, 0] = RbV.Rs.Res.ok ([0, 0], 900) := by
+  decide
+/-- the empty observation sequence: `forward` panics (`observations.len() - 1`), `viterbi` panics (`unwrap` of the empty
+`max_by_key` is never reached: the loop body does not run) — the theorems assume `obs ≠ []` -/
+example : RbV.Gen.SrcHmmForward.forward (RbV.Rs.natOps 0) (RbV.Rs.hmmOps exModel) [] = RbV.Rs.Res.panic := by decide
+example : RbV.Gen.SrcHmmViterbi.viterbi (RbV.Rs.natOps 0) (RbV.Rs.hmmOps exModel) [] = RbV.Rs.Res.ok ([], 0) := by decide
 
 end RbV.Thm.C14
